@@ -14,7 +14,9 @@ counts, face positions and coefficient fields):
      ghost side replaced by the face average (ghost+inner)/2
  R5  closed systems: the coefficients multiplying a boundary-face diffusivity sum to zero (ghost = inner => no flux);
      advective boundary-face contributions are linear in the wall-normal velocity (R1L), hence vanish with it;
-     the periodic-seam half of the statement is C08.A4
+     the periodic-seam half of the statement is C08.A4 (matrix rows) and
+ R5p the ghost layer wraps to the opposite side under every flag configuration that makes an axis periodic (both faces or
+     one face flagged), so explicitly evaluated fluxes see one face value / gradient on both copies of the seam face
  R6  source terms are cell-local (diagonal matrix / own-cell right-hand side)
  R7  domainIntegral() sums cellvolume*value over the interior cells once
  R8  explicit solver steps: solveExplicitPDE returns old + dt*RHS in every interior cell (so the integral changes by
@@ -40,6 +42,7 @@ RULES = {
     'R3': 'TVD RHS: volume-weighted face contributions cancel',
     'R4': 'boundary-face flux functional = transplanted interior functional (upwind: ghost -> face average)',
     'R5': 'no-flux closure: boundary-face diffusion coefficients sum to zero (zero flux for ghost = inner); advective boundary flux is linear in the wall velocity (R1L)',
+    'R5p': 'periodic closure: the ghost layer wraps to the opposite side under every flag configuration that makes an axis periodic',
     'R6': 'source terms are cell-local',
     'R7': 'domainIntegral = sum(cellvolume*value)',
     'R8': 'solveExplicitPDE: interior = old + dt*RHS, ghost layer re-imposed from the BCs for the new interior',
@@ -274,6 +277,37 @@ def job(args):
                 ok = False
                 detail = "summed array is not the interior block"
     ob('R7', 'cell.CellVariable.domainIntegral', ok, f"{cls}: {detail}", mi.loc())
+    # ---- R5p periodic closure of explicitly evaluated fluxes: under every flag configuration that makes an axis periodic
+    # (both faces flagged, or one of them) the ghost layer wraps - the value across the low face is the last interior value
+    # and vice versa - so the one physical seam face carries the same face value / gradient on both of its copies
+    if w.symbolic:
+        from ..model import RADIAL, FACES
+        from ..arrays import Arr, Box
+        gfi = sm.func('boundary', 'cellValuesWithBoundaries')
+        units.add('boundary.cellValuesWithBoundaries')
+        d = w.dim
+        for a in range(d):
+            if a == 0 and cls in RADIAL:
+                continue
+            lo, hi = FACES[2 * a], FACES[2 * a + 1]
+            for mode, flagged in (('both', (lo, hi)), ('low-only', (lo,)), ('high-only', (hi,))):
+                bc = w.boundary_conditions(periodic=flagged)
+                interior = Box(Arr(tuple(w.N), lambda idx: Rat.atom(('phi',) + tuple(i + 1 for i in idx))))
+                construct = f"boundary.cellValuesWithBoundaries[{cls}]/periodic-wrap/axis={AX[a]}/{mode}"
+                try:
+                    g = snap(w.call('boundary', 'cellValuesWithBoundaries', interior, bc))
+                except AbstractRaise as e:
+                    ob('R5p', construct, False, f"raises {e.exc}: {e.msg}", gfi.loc())
+                    continue
+                T = tuple(w.t)
+                Glo = tuple(ZERO if k == a else T[k] for k in range(d))
+                Ghi = tuple(w.N[k] + 1 if k == a else T[k] for k in range(d))
+                wlo = Rat.atom(('phi',) + tuple(w.N[k] if k == a else T[k] for k in range(d)))
+                whi = Rat.atom(('phi',) + tuple(ONE if k == a else T[k] for k in range(d)))
+                dl, dh = g.at(Glo) - wlo, g.at(Ghi) - whi
+                ob('R5p', construct, is_zero(dl) and is_zero(dh),
+                   f"ghost across the {lo} face = {fmt_rat(g.at(Glo), 4)} (last interior value expected), across the {hi} face = {fmt_rat(g.at(Ghi), 4)} (first interior value expected)"
+                   if not (is_zero(dl) and is_zero(dh)) else f"ghost layer wraps along {AX[a]} with flags on {flagged}", gfi.loc())
     # ---- R8 explicit solver step
     if w.symbolic:
         from .c12 import explicit_step
